@@ -562,6 +562,23 @@ def _delete_nth(main, n):
     return None
 
 
+def _unwrap_nth(main, n):
+    """Replace the n-th statement, if it is if/while/for/with/try, by its body (on a copy)."""
+    import copy
+
+    m = copy.deepcopy(main)
+    k = 0
+    for lst in _stmt_lists(m):
+        if n < k + len(lst):
+            st = lst[n - k]
+            if isinstance(st, (ast.If, ast.While, ast.For, ast.With, ast.Try)) and st.body:
+                lst[n - k:n - k + 1] = st.body
+                return m
+            return None
+        k += len(lst)
+    return None
+
+
 def _drop_helpers(prefix_src, main_text_fn):
     """Candidates of the module prefix with one top-level statement (not an import) removed."""
     try:
@@ -637,6 +654,24 @@ def shrink_job(job):
                 changed = True
             else:
                 i += 1
+    # optional: replace a compound statement by its body (bounded number of extra attempts)
+    unwraps = 0
+    progress = True
+    while progress and unwraps < 15:
+        progress = False
+        for k in range(_count_stmts(main)):
+            cand = _unwrap_nth(main, k)
+            if cand is None:
+                continue
+            unwraps += 1
+            text = join_main(prefix, cand, suffix)
+            if still_fails(text):
+                main = cand
+                best = text
+                progress = True
+                break
+            if unwraps >= 15:
+                break
     # optional: drop helper definitions that are not needed for the failure (cheap, bounded)
     extra = 0
     progress = True
